@@ -81,7 +81,14 @@ Definition is_fnil (f : fault) : bool := match f with FNil => true | _ => false 
 Definition s_unrow (s : store) (k : Z) : store := mkStore (upd (smap s) k None) (sver s).
 
 (* the value a successful write of datum d under key k stores and returns *)
-Definition newval (s : store) (k d : Z) : Z := 10000 * (sver s k + 1) + d.
+(* The value a successful write of datum d under key k produces: 10000 * (the key's write count) + d, plus - in the
+   millions - a mark of the row it was computed FROM: 0 for "no row", 1 + that row's own write count otherwise.
+   The store merges: the row it keeps is computed from its actual current row.  An update / upsert callback answers
+   with the value computed from the `existing` argument it was handed.  The two coincide exactly when the handler
+   passed the store's current row; on a cache miss upsert is handed nil, and for an existing row its answer is then
+   not the stored row - which is why handleMixUpsertThenLoad reloads instead of caching that answer. *)
+Definition vmark (base : val) : Z := match base with None => 0 | Some z => 1 + (z / 10000) mod 100 end.
+Definition newval (s : store) (k d : Z) (base : val) : Z := 1000000 * vmark base + 10000 * (sver s k + 1) + d.
 Definition s_write (s : store) (k v : Z) : store := mkStore (upd (smap s) k (Some v)) (updz (sver s) k (sver s k + 1)).
 
 Definition s_load (s : store) (f : fault) (k : Z) : store * sres :=
@@ -93,15 +100,17 @@ Definition s_add (s : store) (f : fault) (k d : Z) : store * sres :=
   match ferr f with Some e => (s, SErr e) | None =>
     match smap s k with
     | Some _ => (s, SErr EExists)
-    | None => if is_fnil f then (s, SOk None) else let v := newval s k d in (s_write s k v, SOk (Some v)) end end.
-Definition s_upd (s : store) (f : fault) (k d : Z) : store * sres :=
+    | None => if is_fnil f then (s, SOk None) else let v := newval s k d None in (s_write s k v, SOk (Some v)) end end.
+Definition s_upd (s : store) (f : fault) (k d : Z) (pre : val) : store * sres :=
   match ferr f with Some e => (s, SErr e) | None =>
     match smap s k with
     | None => (s, SErr EMissing)
-    | Some _ => if is_fnil f then (s_unrow s k, SOk None) else let v := newval s k d in (s_write s k v, SOk (Some v)) end end.
-Definition s_upsert (s : store) (f : fault) (k d : Z) : store * sres :=
+    | Some _ => if is_fnil f then (s_unrow s k, SOk None)
+                else (s_write s k (newval s k d (smap s k)), SOk (Some (newval s k d pre))) end end.
+Definition s_upsert (s : store) (f : fault) (k d : Z) (pre : val) : store * sres :=
   match ferr f with Some e => (s, SErr e) | None =>
-    if is_fnil f then (s_unrow s k, SOk None) else let v := newval s k d in (s_write s k v, SOk (Some v)) end.
+    if is_fnil f then (s_unrow s k, SOk None)
+    else (s_write s k (newval s k d (smap s k)), SOk (Some (newval s k d pre))) end.
 Definition s_delete (s : store) (f : fault) (k : Z) : store * option err :=
   match ferr f with Some e => (s, Some e) | None => (s_unrow s k, None) end.
 
@@ -195,8 +204,8 @@ Definition mstep (p : prog) (s : wst) (fs : list fault) : option (prog * wst * l
   | PDel k c => Some (c, mkW (c_del (wc s) k) (wsr s), fs, EvDel k)
   | PLoad k c => let '(f, fs') := nextf fs in let '(st, r) := s_load (wsr s) f k in Some (c r, mkW (wc s) st, fs', EvLoad k r)
   | PAdd k d c => let '(f, fs') := nextf fs in let '(st, r) := s_add (wsr s) f k d in Some (c r, mkW (wc s) st, fs', EvAdd k d r)
-  | PUpd k d pre c => let '(f, fs') := nextf fs in let '(st, r) := s_upd (wsr s) f k d in Some (c r, mkW (wc s) st, fs', EvUpd k d pre r)
-  | PUpsert k d pre c => let '(f, fs') := nextf fs in let '(st, r) := s_upsert (wsr s) f k d in Some (c r, mkW (wc s) st, fs', EvUpsert k d pre r)
+  | PUpd k d pre c => let '(f, fs') := nextf fs in let '(st, r) := s_upd (wsr s) f k d pre in Some (c r, mkW (wc s) st, fs', EvUpd k d pre r)
+  | PUpsert k d pre c => let '(f, fs') := nextf fs in let '(st, r) := s_upsert (wsr s) f k d pre in Some (c r, mkW (wc s) st, fs', EvUpsert k d pre r)
   | PDelete k c => let '(f, fs') := nextf fs in let '(st, r) := s_delete (wsr s) f k in Some (c r, mkW (wc s) st, fs', EvDelete k r)
   end.
 
@@ -214,9 +223,9 @@ Fixpoint exec (p : prog) (s : wst) (fs : list fault) : wst * list event * res :=
       let '(s', evs, x) := exec (c r) (mkW (wc s) st) fs' in (s', EvLoad k r :: evs, x)
   | PAdd k d c => let '(f, fs') := nextf fs in let '(st, r) := s_add (wsr s) f k d in
       let '(s', evs, x) := exec (c r) (mkW (wc s) st) fs' in (s', EvAdd k d r :: evs, x)
-  | PUpd k d pre c => let '(f, fs') := nextf fs in let '(st, r) := s_upd (wsr s) f k d in
+  | PUpd k d pre c => let '(f, fs') := nextf fs in let '(st, r) := s_upd (wsr s) f k d pre in
       let '(s', evs, x) := exec (c r) (mkW (wc s) st) fs' in (s', EvUpd k d pre r :: evs, x)
-  | PUpsert k d pre c => let '(f, fs') := nextf fs in let '(st, r) := s_upsert (wsr s) f k d in
+  | PUpsert k d pre c => let '(f, fs') := nextf fs in let '(st, r) := s_upsert (wsr s) f k d pre in
       let '(s', evs, x) := exec (c r) (mkW (wc s) st) fs' in (s', EvUpsert k d pre r :: evs, x)
   | PDelete k c => let '(f, fs') := nextf fs in let '(st, r) := s_delete (wsr s) f k in
       let '(s', evs, x) := exec (c r) (mkW (wc s) st) fs' in (s', EvDelete k r :: evs, x)
